@@ -264,6 +264,31 @@ def main() -> None:
             run.fail("decompile-alters-input:" + (diff[0]["code"] if diff else kind), f"convert() changed the routine set it was given: {diff}",
                      {"ops": c.ops, "after": k["after"]})
         run.count("keeps-input")
+    # a compiler object reused over files that change: a failing nested import, then the repaired files
+    lib = 'import "./base.exps";\nmacro lib_m() {\n    ~base_m();\n    lib_op();\n}\n'
+    base = "macro base_m() {\n    base_op();\n}\n"
+    main = 'import "./lib/lib.exps";\ndef 0 {\n    ~lib_m();\n    end;\n}\n'
+    other = "def 0 {\n    other();\n    end;\n}\n"
+    fh = [
+        [["write", {"main.exps": main, "lib/lib.exps": lib, "lib/base.exps": "macro base_m( {"}], ["compile", "main.exps"],
+         ["write", {"lib/base.exps": base}], ["compile", "main.exps"], ["compile", "main.exps"]],
+        [["write", {"main.exps": main, "lib/lib.exps": lib, "lib/base.exps": base, "o.exps": other}], ["compile", "main.exps"],
+         ["write", {"lib/lib.exps": 'import "./nope.exps";\n' + lib}], ["compile", "main.exps"], ["compile", "o.exps"],
+         ["write", {"lib/lib.exps": lib}], ["compile", "main.exps"]],
+        [["write", {"main.exps": main, "lib/lib.exps": lib, "lib/base.exps": 'import "../main.exps";\n' + base}], ["compile", "main.exps"],
+         ["write", {"lib/base.exps": base}], ["compile", "main.exps"]],
+    ]
+    for steps, o in zip(fh, run_impl([("files:compile_files_history", st) for st in fh], chunksize=1)):
+        run.case(["files-history", steps], nontrivial=True)
+        if not o.get("ok"):
+            run.fail("files-history-crash", f"history over files failed: {o}", {"steps": steps})
+            continue
+        for n, (reused, fresh) in enumerate(o["results"]):
+            run.count("files-history:" + ("ok" if reused == fresh else "DIFFERENT"))
+            if reused != fresh:
+                run.fail("history-dependence:compile_reuse:files", f"compile step {n} on a reused compiler object gives {reused}, a new "
+                         f"compiler object on the same files gives {fresh}", {"steps": steps, "observed": reused, "expected": fresh})
+                break
     if frame_broken is not None:
         run.correspondence_broken("frame condition " + frame_broken[0] + " of Hist/Frame.v", frame_broken[1], {"history": frame_broken[2]})
     run.sample({"history": [c[0] for c in histories[0]]})
